@@ -96,3 +96,68 @@ Definition check_c02 (d : doc) (pd : pdoc) : nat :=
   if negb (nat_list_eqb (map fst obs) want_tags) then 1
   else if negb (list_eqb str_list_eqb (map (fun tr => map cell_text (rw_cells (snd tr))) obs) want_text) then 2
   else 0.
+
+(* ---- C13 ---- *)
+(* independent statement of "equal hierarchical keys are contiguous": tuple keys, null a value of its own *)
+Definition key_tuple (cols : list str) (lvl : list str) (row : list val) : list val :=
+  map (fun k => col_val cols row k) lvl.
+Definition tuple_eqb := list_eqb val_eqb.
+
+Definition spec_contiguous (cols : list str) (rows : list (list val)) (keys : list str) : bool :=
+  all_b (fun lvl => contiguous tuple_eqb (map (key_tuple cols lvl) rows)) (prefixes keys []).
+
+(* expected text of group column k (level prefix lvl) of row cur, given the previous row (None: first on page) *)
+Definition expected_group_cell (cols : list str) (lvl : list str) (k : str)
+           (prev : option (list val)) (cur : list val) : str :=
+  match prev with
+  | None => display (col_val cols cur k)
+  | Some p => if tuple_eqb (key_tuple cols lvl p) (key_tuple cols lvl cur) then [] else display (col_val cols cur k)
+  end.
+
+(* expected texts of one displayed row *)
+Definition expected_row (pcols : list str) (keys : list str) (prev : option (list val)) (cur : list val)
+  : list str :=
+  map (fun c =>
+         match first_some (fun lvl => match last_opt lvl with
+                                      | Some k => if str_eqb k c then Some lvl else None
+                                      | None => None end) (prefixes keys []) with
+         | Some lvl => expected_group_cell pcols lvl c prev cur
+         | None => display (col_val pcols cur c)
+         end) pcols.
+
+(* walk the observed pages; rows: processed frame rows *)
+Fixpoint c13_page (pcols keys : list str) (rows : list (list val)) (obs : list (nat * row)) (first : bool)
+  : bool :=
+  match obs with
+  | [] => true
+  | (t, r) :: rest =>
+    let cur := nth t rows [] in
+    let prev := if first then None else match t with O => None | S t' => Some (nth t' rows []) end in
+    str_list_eqb (map cell_text (rw_cells r)) (expected_row pcols keys prev cur)
+    && c13_page pcols keys rows rest false
+  end.
+
+(* clause ids: 1 tags; 2 a cell differs from the blank-iff-repeat rule; 4 accepted although keys are not contiguous *)
+Definition check_c13 (d : doc) (pd : pdoc) : nat :=
+  match d_content d with
+  | CSingle f b =>
+    let '(pf, _, _) := prepare f b in
+    let keys := opt_list (b_group_by b) in
+    let tags := page_tags pd in
+    if negb (nat_list_eqb (concat tags) (seq 0 (length (f_rows f)))) then 1
+    else if negb (spec_contiguous (f_cols pf) (f_rows pf) keys) then 4
+    else if all_b (fun p => c13_page (f_cols pf) keys (f_rows pf) (data_rows p) true) (observed_pages pd)
+         then 0 else 2
+  | _ => 0
+  end.
+
+Definition c13_should_refuse (d : doc) : bool :=
+  match d_content d with
+  | CSingle f b =>
+    let '(pf, _, _) := prepare f b in
+    match b_group_by b, f_rows pf with
+    | Some ((_ :: _) as keys), _ :: _ => negb (spec_contiguous (f_cols pf) (f_rows pf) keys)
+    | _, _ => false
+    end
+  | _ => false
+  end.
